@@ -236,11 +236,26 @@ func (e *env) build(store rmt.Database, at func(i int) bool, predict bool) *rmt.
 	if !bytes.Equal(t.Root(), ref31.EmptyHash) || t.Size() != 0 || len(t.AppendPath()) != 0 {
 		e.viol("empty:state-differs", "a new tree is not the empty tree (empty hash, size 0, empty append path)", nil)
 	}
+	// append paths as a caller holds them: the slices AppendPath() returned (not copied) next to
+	// a deep copy taken at the same moment; a later Append must not rewrite what was handed out,
+	// or the path no longer predicts / witnesses the size it was read at
+	type held struct {
+		size       int
+		live, copy [][]byte
+	}
+	var retained []held
 	for i, d := range e.data {
 		sel := at(i + 1)
 		var apBefore [][]byte
 		if sel && predict {
 			apBefore = cpAll(t.AppendPath())
+		}
+		if sel {
+			live := t.AppendPath()
+			retained = append(retained, held{i, live, cpAll(live)})
+			if len(retained) > 6 {
+				retained = retained[1:]
+			}
 		}
 		var err error
 		if pn, msg, st := guard(func() { err = t.Append(cp(d)) }); pn {
@@ -252,6 +267,14 @@ func (e *env) build(store rmt.Database, at func(i int) bool, predict bool) *rmt.
 			return nil
 		}
 		k.Count("appends", 1)
+		for _, h := range retained {
+			k.Count("held_append_paths_rechecked", 1)
+			if !eqAll(h.live, h.copy) {
+				e.viol("append:rewrites-append-path-handed-out-earlier", "an append path returned by AppendPath() was rewritten in place by a later Append: it no longer reconstructs the root of the size it was read at", map[string]any{"read_at_size": h.size, "size_after": i + 1, "now": hexAll(h.live), "was": hexAll(h.copy)})
+				retained = nil
+				break
+			}
+		}
 		if !sel {
 			continue
 		}
